@@ -34,5 +34,7 @@ HOW TO BUILD/TEST (offline sandbox; the module cache is populated):
   Full suite: go test -vet=off -count=1 -timeout 25m ./...   (NOTE: in this snapshot three packages fail even without any change — pkg/api/test and pkg/cli/test abort in TestMain because two font fixtures are 0-byte files, and pkg/pdfcpu TestReadTIFFWritePNG fails on a 0-byte fixture; TestReadLargeDictObject* may time out under machine load. 'Passes' therefore means: no failure that the unmodified tree does not also have. Run the baseline once to compare. Takes several minutes; give the shell command a long timeout, e.g. 30 minutes; other jobs share the machine). Tests rewrite some sample PDFs under pkg/samples; ignore those in your diff (git checkout -- pkg/samples before diffing).
   You MUST actually run the full suite with each patch applied and confirm it passes, and run the demo both ways. If a candidate change makes an existing test fail, pick a different change.
 
+SIDE OBSERVATIONS (optional, cheap): if while reading you notice a place where the UNMODIFIED tree already seems to violate this property (for some input, fault or sequence), list it in one or two lines under a heading 'Side observations on the unmodified tree' at the end of one README and repeat it in your final summary. Do not spend time demonstrating it.
+
 WHEN DONE: revert the worktree to a clean state (git -C {wt} checkout -- . ; remove any files you added inside the worktree) and reply with a short summary: for {V1} and {V2} the files touched, what is needed to manifest, and the verification results. Do not include anything else.
 """)
